@@ -26,18 +26,21 @@ theorem PkgW.of_nil {row : InstrRow} {p : Pkg} (h1 : p.size ≤ p.maxSize) (h2 :
 
 theorem offBody_w {ind : Bool} {row : InstrRow} {right : Str} {raw0 : Nat} {needs : Bool} {l : Value}
     {p : Pkg} (h : offBody ind row right raw0 needs l = .ok p) :
-    PkgW row p ∧ (p.choices ≠ [] → p.additional = l) := by
+    PkgW row p ∧ (p.needsRes = true → p.additional = l) := by
   unfold offBody at h
   simp only [bind, Except.bind, pure, Except.pure, throw, throwThe, MonadExceptOf.throw] at h
   repeat' split at h
   all_goals first
     | (cases h; done)
-    | (cases h; exact ⟨.of_nil (Nat.le_refl _) rfl, fun h => absurd rfl h⟩)
+    | (cases h
+       refine ⟨.of_nil (Nat.le_refl _) rfl, ?_⟩
+       intro hh
+       first | rfl | contradiction | cases hh)
     | (cases h; exact ⟨⟨by show row.indSz ≤ row.indSz + 2; omega, fun _ => ⟨rfl, rfl, rfl, ‹opVal row.ind = _›⟩⟩, fun _ => rfl⟩)
 
 theorem translateOffset_w {ind : Bool} {row : InstrRow} {left : Value} {right : Str} {raw0 : Nat} {p : Pkg}
     (h : translateOffset ind row left right raw0 = .ok p) :
-    PkgW row p ∧ (p.choices ≠ [] → AddlOf left p.additional) := by
+    PkgW row p ∧ (p.needsRes = true → AddlOf left p.additional) := by
   rw [translateOffset_eq] at h
   split at h
   · cases h
@@ -59,12 +62,13 @@ theorem translateOffset_w {ind : Bool} {row : InstrRow} {left : Value} {right : 
       · exact absurd rfl (hv2 _ _)
       · exact this
 
-/-- `additional` of an undecided PCR package in terms of the operand's left-hand side -/
+/-- `additional` of a package `fix_addresses` has to resolve (an undecided PCR operand, or — batch B3 — the label offset
+of a pointer register) in terms of the operand's left-hand side -/
 def LeftOK (o : Operand) (p : Pkg) : Prop :=
-  p.choices ≠ [] → ∀ v, o.left = .val v → AddlOf v p.additional
+  p.needsRes = true → ∀ v, o.left = .val v → AddlOf v p.additional
 
 theorem leftOK_of {o : Operand} {p : Pkg} {w : Value} (hl : o.left = .val w)
-    (h2 : p.choices ≠ [] → AddlOf w p.additional) : LeftOK o p := by
+    (h2 : p.needsRes = true → AddlOf w p.additional) : LeftOK o p := by
   intro hc v hv; rw [hl] at hv; cases hv; exact h2 hc
 
 theorem leftOK_of_text {o : Operand} {p : Pkg} {l : Str} (hl : o.left = .text l) : LeftOK o p := by
@@ -77,7 +81,7 @@ theorem translateIndexed_w {row : InstrRow} {o : Operand} {p : Pkg} (h : transla
   repeat' split at h
   all_goals first
     | (cases h; done)
-    | (cases h; exact ⟨.of_nil (Nat.le_refl _) rfl, fun h => absurd rfl h⟩)
+    | (cases h; exact ⟨.of_nil (Nat.le_refl _) rfl, nofun⟩)
     | (obtain ⟨h1, h2⟩ := translateOffset_w h
        exact ⟨h1, leftOK_of (by assumption) h2⟩)
     | (obtain ⟨h1, h2⟩ := translateOffset_w h
@@ -98,7 +102,7 @@ theorem translateExtIndirect_w {row : InstrRow} {o : Operand} {p : Pkg} (h : tra
     repeat' split at h
     all_goals first
     | (cases h; done)
-    | (cases h; exact ⟨.of_nil (Nat.le_refl _) rfl, fun h => absurd rfl h⟩)
+    | (cases h; exact ⟨.of_nil (Nat.le_refl _) rfl, nofun⟩)
     | (obtain ⟨h1, h2⟩ := translateOffset_w h
        exact ⟨h1, leftOK_of rfl h2⟩)
   case text.some =>
@@ -110,14 +114,14 @@ theorem translateExtIndirect_w {row : InstrRow} {o : Operand} {p : Pkg} (h : tra
     repeat' split at h
     all_goals first
     | (cases h; done)
-    | (cases h; exact ⟨.of_nil (Nat.le_refl _) rfl, fun h => absurd rfl h⟩)
+    | (cases h; exact ⟨.of_nil (Nat.le_refl _) rfl, nofun⟩)
     | (obtain ⟨h1, h2⟩ := translateOffset_w h
        exact ⟨h1, leftOK_of_text rfl⟩)
   all_goals
     repeat' split at h
     all_goals first
     | (cases h; done)
-    | (cases h; exact ⟨.of_nil (Nat.le_refl _) rfl, fun h => absurd rfl h⟩)
+    | (cases h; exact ⟨.of_nil (Nat.le_refl _) rfl, nofun⟩)
 
 theorem translatePseudo_w {row : InstrRow} {o : Operand} {p : Pkg} (h : translatePseudo o row = .ok p) :
     PkgW row p ∧ LeftOK o p := by
@@ -126,7 +130,7 @@ theorem translatePseudo_w {row : InstrRow} {o : Operand} {p : Pkg} (h : translat
   repeat' split at h
   all_goals first
     | (cases h; done)
-    | (cases h; exact ⟨.of_nil (Nat.le_refl _) rfl, fun h => absurd rfl h⟩)
+    | (cases h; exact ⟨.of_nil (Nat.le_refl _) rfl, nofun⟩)
 
 theorem translateSpecial_w {row : InstrRow} {o : Operand} {p : Pkg} (h : translateSpecial o row = .ok p) :
     PkgW row p ∧ LeftOK o p := by
@@ -135,7 +139,7 @@ theorem translateSpecial_w {row : InstrRow} {o : Operand} {p : Pkg} (h : transla
   repeat' split at h
   all_goals first
     | (cases h; done)
-    | (cases h; exact ⟨.of_nil (Nat.le_refl _) rfl, fun h => absurd rfl h⟩)
+    | (cases h; exact ⟨.of_nil (Nat.le_refl _) rfl, nofun⟩)
 
 /-- **every translated package has `size ≤ maxSize`**; a package with post-byte choices (an undecided PCR
 operand) has `maxSize = size + 2`, the indexed base size, and the label (expression) in `additional` -/
@@ -152,6 +156,6 @@ theorem translateOperand_w {row : InstrRow} {o : Operand} {p : Pkg} (h : transla
     repeat' split at h
     all_goals first
       | (cases h; done)
-      | (cases h; exact ⟨.of_nil (Nat.le_refl _) rfl, fun h => absurd rfl h⟩)
+      | (cases h; exact ⟨.of_nil (Nat.le_refl _) rfl, nofun⟩)
 
 end CoCo.Asm
